@@ -89,7 +89,8 @@ CHECKS['C14'] = {
             'static_asserts, g++ and clang++) plus compile-fail witnesses; in doProcessIf the typed view of a slot is dominated by the tag test for the '
             'very PrototypeInfo whose ArgsTuple it uses and the slot is never copied out; doEnqueue stores type, tag and dispatcher of one PrototypeInfo '
             'and doDispatchItem casts to that type; every placement-new fits its buffer (layout facts); handle index and list slot agree; '
-            'no use-after-move on the heterogeneous paths (two known findings, K2).',
+            'no use-after-move on the heterogeneous paths (two known findings, K2); PrototypeInfo coherence of every instantiation (found and fixed G9); '
+            'value categories handed on to the prototype selection; slot interpretation and listener-management mapping on the heterogeneous classes.',
     'note': COMMON_NOTE + 'Not decided: overload subtleties beyond the generated families; alignment of over-aligned payloads.',
     'technique': 'generated static_assert families vs independent oracle, dominance of tag test over typed view, template-argument/enumerator agreement from class facts, use-after-move',
 }
